@@ -135,6 +135,18 @@ impl TcpConnector for TcpForwarder {
             }
         };
 
+        self.connect_to_peer(id, peer).await
+    }
+}
+
+impl TcpForwarder {
+    /// Connect to `peer` as it is: the policy for destinations chosen by clients is the
+    /// business of [`TcpConnector::connect`]
+    pub(crate) async fn connect_to_peer(
+        &self,
+        id: log_utils::IdChain<u64>,
+        peer: SocketAddr,
+    ) -> Result<(Box<dyn pipe::Source>, Box<dyn pipe::Sink>), tunnel::ConnectionError> {
         log_id!(trace, id, "Connecting to peer: {}", peer);
         let metrics_guard = self.context.metrics.clone().outbound_tcp_socket_counter();
         TcpStream::connect(peer)
